@@ -77,6 +77,7 @@ __CPROVER_ensures (((unsigned long) V_SIZ (rop) == (nbits + 63) / 64 && nbits % 
 
 # ------------------------------------------------------------------ randseed_lc: after seeding, the LC state is a function of the seed alone
 from c03_mpz import store_loop
+from c03_mpn import copy_loop
 LC_CONTRACT = '''long g_fs; mp_limb_t g_fl;
 #define V_LCP(r) ((gmp_rand_lc_struct *) ((r)->_mp_seed->_mp_d))
 #define V_LCN(r) ((long) ((V_LCP (r)->_mp_m2exp + 63) / 64))
@@ -120,3 +121,51 @@ UNITS.append(dict(
                  'the LC state invariant ALLOC(seed) >= ceil(m2exp/64) is a precondition (established by gmp_randinit_lc_2exp via mpz_init2; not proved here)'],
     harness='#define V_DFCC 1\n' + LC_H % dict(S=mpz_obj('S')), timeout=900,
     selftest=[('randseed_lc', r'seedn - \(\(seedz\)->_mp_size\)\) != 0', '0) != 0'), ('randseed_lc', r'\(\(seedz\)->_mp_size\) = seedn;', ';')]))
+
+# ------------------------------------------------------------------ randget_lc: the LC generator MEETS the generator contract the other C19 units assume
+# (ceil(nbits/64) limbs at most, no bit at or above nbits, nothing outside the destination and the state), over an ASSUMED contract of lc()
+RG_CONTRACT = '''extern const void *__CPROVER_alloca_object;
+#define V_LCP(r) ((gmp_rand_lc_struct *) ((r)->_mp_seed->_mp_d))
+#define V_LCV(r) ((long) ((V_LCP (r)->_mp_m2exp + 1) / 2))                 /* valid bits of one lc() step: the high half, ceil(m2exp/2) */
+#define V_LCW(r) ((V_LCV (r) + 63) / 64)                                   /* limbs one lc() step writes */
+#define V_LCSTATE(r) (__CPROVER_r_ok ((r), sizeof (*(r))) && __CPROVER_w_ok (V_LCP (r), sizeof (gmp_rand_lc_struct)) \\
+   && 1 <= V_LCP (r)->_mp_m2exp && V_LCP (r)->_mp_m2exp <= (1UL << 30) && V_WFA (V_LCP (r)->_mp_seed))
+/* ASSUMED (from the code of lc(): it returns (m2exp+1)/2 "valid bits", writes ceil(valid/64) limbs, t < 2^m2exp shifted right by m2exp/2) */
+static mpir_ui lc (mp_ptr rp, gmp_randstate_t rstate)
+__CPROVER_requires (V_LCSTATE (rstate) && V_W_OK (rp, V_LCW (rstate)))
+__CPROVER_assigns (__CPROVER_object_upto (rp, V_LCW (rstate) * 8), __CPROVER_object_whole (V_PTR (V_LCP (rstate)->_mp_seed)))
+__CPROVER_ensures (__CPROVER_return_value == (mpir_ui) V_LCV (rstate))
+__CPROVER_ensures (V_LCV (rstate) % 64 != 0 ==> (rp[V_LCW (rstate) - 1] >> (V_LCV (rstate) % 64)) == 0);
+static void randget_lc (gmp_randstate_t rstate, mp_ptr rp, mpir_ui nbits)
+__CPROVER_requires (V_LCSTATE (rstate) && nbits <= 64 * (unsigned long) V_ZMAX && (nbits == 0 || V_W_OK (rp, (nbits + 63) / 64)) && V_GHOSTS_OK)
+__CPROVER_requires (!__CPROVER_same_object (rp, V_PTR (V_LCP (rstate)->_mp_seed)) && !__CPROVER_same_object (rp, V_LCP (rstate)) && !__CPROVER_same_object (rp, rstate))
+__CPROVER_assigns (__CPROVER_object_upto (rp, ((nbits + 63) / 64) * 8), __CPROVER_object_whole (V_PTR (V_LCP (rstate)->_mp_seed)), __CPROVER_alloca_object, gk)
+__CPROVER_ensures (nbits % 64 != 0 ==> (rp[nbits / 64] >> (nbits % 64)) == 0);
+'''
+RG_H = '''void *__gmp_tmp_reentrant_alloc (struct tmp_reentrant_t **m, size_t n) { void *q = malloc (n); __CPROVER_assume (q != (void *) 0); return q; }
+void __gmp_tmp_reentrant_free (struct tmp_reentrant_t *m) { }
+void h_randget_lc (void) {
+  __gmp_randstate_struct R; gmp_rand_lc_struct *p = malloc (sizeof (gmp_rand_lc_struct)); __CPROVER_assume (p != (void *) 0);
+  R._mp_seed->_mp_d = (mp_limb_t *) p;
+  { long a = nondet_long (); __CPROVER_assume (1 <= a && a <= V_ZMAX); p->_mp_seed->_mp_alloc = a; p->_mp_seed->_mp_d = malloc (a * 8); __CPROVER_assume (p->_mp_seed->_mp_d != (void *) 0); }
+  mpir_ui nbits = nondet_ulong (); __CPROVER_assume (nbits <= 64 * (unsigned long) V_ZMAX);
+  mp_limb_t *rp = malloc (((nbits + 63) / 64) * 8); __CPROVER_assume (rp != (void *) 0);
+  gk = 0; gj = 0; gh = 0;
+  randget_lc (&R, rp, nbits);
+}'''
+_PBIT = '(rbitpos % 64 != 0 ==> (rp[rbitpos / 64] >> (rbitpos % 64)) == 0)'
+UNITS.append(dict(
+    name='randget_lc', props=['C19', 'C04', 'C15'], source='randlc2x.c', contracts=['mpn.h', 'mpz.h'], contract_text=RG_CONTRACT,
+    enforce=['randget_lc'], replace=['lc', '__gmpn_lshift'],
+    functions={'randget_lc': dict(
+        inserts=[(r'rcy = __gmpn_lshift \(r2p, tp, tn, rbitpos % \(64 - 0\)\);(?=\s*r2p\[0\] \|= savelimb;\s*if \(\(chunk_nbits)', r'gk = tn - 1; \g<0>'),
+                 (r'rcy = __gmpn_lshift \(r2p, tp, tn, rbitpos % \(64 - 0\)\);(?=\s*r2p\[0\] \|= savelimb;\s*if \(rbitpos \+ tn)', r'gk = tn - 1; \g<0>')],
+        loops={0: dict(scalars=['rbitpos', 'gk'], slices=[('rp', '((nbits + 63) / 64) * 8'), ('V_sp', 'V_sa * 8'), ('V_tp', 'tn * 8')],
+                       snap='mp_ptr V_sp = (((gmp_rand_lc_struct *) ((rstate)->_mp_seed->_mp_d))->_mp_seed)->_mp_d; long V_sa = (((gmp_rand_lc_struct *) ((rstate)->_mp_seed->_mp_d))->_mp_seed)->_mp_alloc; mp_ptr V_tp = tp;',
+                       inv='(rbitpos <= nbits && chunk_nbits == V_LCV (rstate) && tn == V_LCW (rstate) && tp == V_tp && V_W_OK (tp, tn) && (chunk_nbits % 64 == 0 ==> rbitpos % 64 == 0) && ' + _PBIT + ')',
+                       dec='(nbits - rbitpos)', local_to_body=['r2p', 'savelimb', 'rcy']),
+               1: copy_loop(['gk'])})},
+    assumptions=['lc(): ASSUMED contract (writes ceil(valid/64) limbs, valid = (m2exp+1)/2 = its own return value, no bit above; advances the state); mpn_mul inside lc is not verified',
+                 'm2exp <= 2^30 (chunk size is an int)'],
+    harness=RG_H, timeout=3000, tier='thorough', replay='mpz_urandomb',
+    selftest=[('randget_lc', r'if \(nbits % \(64 - 0\) != 0\)\s*rp\[nbits / \(64 - 0\)\]', 'if (0) rp[nbits / (64 - 0)]')]))
